@@ -9,6 +9,7 @@ pub mod c13b;
 pub mod c14;
 pub mod c19;
 pub mod c20;
+pub mod c06;
 pub mod c11;
 pub mod envelope_props;
 pub mod model_props;
@@ -27,6 +28,7 @@ pub fn run(args: &Args) -> ! {
         "C20" => c20::run(args),
         "C19" => c19::run(args),
         "C14" => c14::run(args),
+        "C06" => c06::run(args),
         p => {
             eprintln!("INFRA: unknown property '{}'", p);
             std::process::exit(2)
@@ -57,6 +59,7 @@ pub fn replay_one(ctx: &Ctx, doc: &ReplayDoc) {
         "C20" => c20::replay_one(ctx, doc),
         "C19" => c19::replay_one(ctx, doc),
         "C14" => c14::replay_one(ctx, doc),
+        "C06" => c06::replay_one(ctx, doc),
         p => ctx.infra_error(format!("unknown property '{}' in replay file", p)),
     }
 }
